@@ -143,6 +143,10 @@ def naming_source(rnd, safe_members=False, safe_entities=False):
     hostile_members = rnd.random() < 0.15
     if safe_members or not hostile_members:
         m0, m1, m2 = 'lit_a', 'lit_b', 'lit_c'
+    mixed_case_members = (not hostile_members) and rnd.random() < 0.3
+    if mixed_case_members and not safe_members:
+        # legal literal names with upper-case letters; objects below get the same names in another spelling
+        m0, m1, m2 = 'Idle', 'BUSY', 'doneFlag'
     import re as _re
     _nrm = lambda n: _re.sub('_+', '_', n).strip('_').lower()      # noqa
     if safe_entities is True and _nrm(Top) == _nrm(Sub):
@@ -152,6 +156,8 @@ def naming_source(rnd, safe_members=False, safe_entities=False):
     uf = set([Top, Sub, En])
     fsub, cfn, pfn, coro, helper, param = (pyname(rnd, uf) for _ in range(6))
     n = [anyname(rnd) for _ in range(6)]
+    if mixed_case_members and not safe_members:
+        n[0], n[1], n[2] = rnd.choice(['idle', 'Idle', 'IDLE']), rnd.choice(['busy', 'Busy']), rnd.choice(['doneflag', 'DoneFlag'])
     reserved_kw = ''
     extra_reserved = None
     attr = ''
@@ -198,6 +204,7 @@ def naming_source(rnd, safe_members=False, safe_entities=False):
     if use_coro:
         L += ["        @std.sequential(std.Clock(self.clk))", f"        async def {coro}():",
               f"            await self.{in1}", f"            await cohdl.expr(self.{in2} == 3)"]
+    naming_source.last_info = {'hostile_members': hostile_members}
     return '\n'.join(L) + '\n', Top, extra_reserved
 
 
@@ -205,6 +212,7 @@ def run_naming(case):
     rnd = random.Random(case['seed'])
     cnt = Counter()
     src, Top, extra = naming_source(rnd)
+    hostile_members = naming_source.last_info['hostile_members']
     mod = None
     try:
         try:
@@ -230,6 +238,8 @@ def run_naming(case):
             ent_names = [m.lower() for m in re.findall(r'(?mi)^\s*entity\s+(\w+)\s+is', comp.text)]
             dup_entities = len(ent_names) != len(set(ent_names))
             for tag, flag in (('enum-literal-emitted-verbatim', 'safe_members'), ('entity-names-differ-only-in-case', 'safe_entities')):
+                if flag == 'safe_members' and not hostile_members:
+                    continue      # the known finding is about hostile literal names only (reserved words, predefined names, ...)
                 trial = dict(flags)
                 # two emitted entities with the same (case-insensitive) name: class names that differ only in case, or a
                 # name that collides after the uniquifying suffix (SIG -> SIG1 next to sig1); same mechanism: entity names
@@ -396,6 +406,10 @@ def run_sens(case):
     for i in range(4):
         env.read.append(bgm.Obj(f"m0[{i}]", 'u', 3, 'm0', 'arrelem'))
     env.read.append(bgm.Obj("m0[self.d]", 'u', 3, 'm0', 'arrelem'))
+    # references built in plain Python at architecture level: the index signal `e` is read only through them
+    arch_refs = rnd.random() < 0.5
+    if arch_refs:
+        env.read += [bgm.Obj('rx', 'u', 3, 'm0', 'arrelem'), bgm.Obj('ry', 'bit', None, 'y', 'arrelem')] * 2
     env.wsig = outs
     bg = bgm.BodyGen(rnd, env)
     body = bg.seq_body(rnd.choice([3, 5, 8]), 2)
@@ -403,10 +417,11 @@ def run_sens(case):
         body = [('sig', 'self.o0', 's0')]
     cname = f"SN{rnd.randrange(1 << 30)}"
     L = [pg.HEADER, f"class {cname}(Entity):", "    clk = Port.input(Bit)", "    a = Port.input(Bit)", "    b = Port.input(Bit)",
-         "    d = Port.input(Unsigned[2])", "    x = Port.input(Unsigned[3])", "    y = Port.input(BitVector[4])",
+         "    d = Port.input(Unsigned[2])", "    e = Port.input(Unsigned[2])", "    x = Port.input(Unsigned[3])", "    y = Port.input(BitVector[4])",
          "    o0 = Port.output(Unsigned[3])", "    o1 = Port.output(BitVector[4])", "    o2 = Port.output(Bit)",
          "    def architecture(self):", "        s0 = Signal[Unsigned[3]](name='s0')", "        s1 = Signal[BitVector[4]](name='s1')",
          "        m0 = Signal[Array[Unsigned[3], 4]](name='m0')",
+         "        rx = m0[self.e]", "        ry = self.y[self.e]",
          "        @std.sequential(std.Clock(self.clk))", "        def feed():", "            nonlocal s0, s1",
          "            s0 <<= self.x", "            s1 <<= self.y", "            m0[self.d] <<= self.x"]
     for h in bg.helpers:
